@@ -5,5 +5,6 @@
 //! * [`io`]    — passive tap that records every file mutation the engine issues.
 //! * [`sched`] — cooperative scheduler points for deterministic thread schedules.
 //! * [`facade`] — thin wrappers exposing crate-private storage internals.
+pub mod facade;
 pub mod io;
 pub mod sched;
